@@ -102,7 +102,11 @@ func (x *Exec) call(s *State, fr *Frame, call *ast.CallExpr) Value {
 			x.spec++
 			x.noObl++
 			defer func() { x.spec--; x.noObl-- }()
-			return x.expr(x.entry.fork(), fr, call.Args[0])
+			es := x.entry.fork()
+			enp, enf := len(es.pc), len(es.facts)
+			ov := x.expr(es, fr, call.Args[0])
+			x.adopt(s, es, enp, enf, nil, nil)
+			return ov
 		}
 	}
 	callText := exprText(x.w.Fset, call.Fun)
@@ -515,12 +519,90 @@ func (x *Exec) invoke(s *State, fr *Frame, fn *types.Func, recv Value, recvT typ
 	if x.inlinable(orig) {
 		return x.inline(s, fr, orig, sig, recv, args, call)
 	}
+	if dep := ownStateDependency(orig); dep != "" && x.spec == 0 {
+		if v, ok := x.ownStateCall(s, fr, orig, sig, recv, recvT, args, call, dep); ok {
+			return v
+		}
+	}
 	// unknown: havoc
 	return x.havocCall(s, fr, orig, sig, args, call)
 }
 
+// ownStateDependency lists methods of container types of dependencies that are
+// assumed (not proved: their source is outside the module) to write nothing but
+// the container itself: the receiver and heap objects of the dependency's own
+// types. It returns the import path prefix of those types.
+func ownStateDependency(fn *types.Func) string {
+	n := fullName(fn)
+	switch {
+	case strings.HasPrefix(n, "(*github.com/RaduBerinde/axisds/v3/regiontree.T["):
+		return "github.com/RaduBerinde/"
+	}
+	return ""
+}
+
+// ownStateCall models a call to such a method. Function arguments are run by the
+// callee, so they must write no memory themselves (checked syntactically);
+// otherwise the call is treated as unknown.
+func (x *Exec) ownStateCall(s *State, fr *Frame, fn *types.Func, sig *types.Signature, recv Value, recvT types.Type, args []Value, call *ast.CallExpr, dep string) (Value, bool) {
+	for _, a := range args {
+		fv, ok := a.(*FuncV)
+		if !ok {
+			if sc, ok := a.(*Scalar); ok && sc.T.Sort == SFn {
+				return nil, false
+			}
+			continue
+		}
+		switch {
+		case fv.Lit != nil:
+			ws := &writeSet{vars: map[types.Object]bool{}, mems: map[string]bool{}}
+			x.scanWrites(fv.Lit.info, fv.Lit.lit.Body, ws, map[*types.Func]bool{}, 0)
+			if ws.all || len(ws.mems) > 0 {
+				return nil, false
+			}
+			for o := range ws.vars {
+				// assignments to captured variables
+				if o.Pos() < fv.Lit.lit.Pos() || o.Pos() > fv.Lit.lit.End() {
+					return nil, false
+				}
+			}
+		case fv.Fn != nil:
+			if !x.syntacticallyPure(fv.Fn) {
+				return nil, false
+			}
+		default:
+			return nil, false
+		}
+	}
+	name := fullName(fn)
+	x.note("assumed", name+" (dependency: assumed to write only its receiver and heap objects of types under "+dep+")")
+	if p, ok := recv.(*PtrV); ok && recvT != nil {
+		if pt, ok := recvT.Underlying().(*types.Pointer); ok {
+			prefix := p.Prov
+			if prefix == "" {
+				prefix = memName(pt.Elem())
+			}
+			nv := x.fresh(s, pt.Elem(), "recv$"+sanitize(fn.Name()))
+			x.assumeWF(s, pt.Elem(), nv)
+			x.store(s, prefix, pt.Elem(), p.Rgn, p.Off, nv)
+		}
+	}
+	for mn := range s.mem {
+		if strings.Contains(mn, dep) {
+			s.mem[mn] = x.ctx.Fresh("mem$"+mn, outerSort(x.memSorts[mn]))
+		}
+	}
+	return x.resultOf(s, sig, sanitize(fn.Name())), true
+}
+
 func (x *Exec) havocCall(s *State, fr *Frame, fn *types.Func, sig *types.Signature, args []Value, call *ast.CallExpr) Value {
 	name := fullName(fn)
+	if sig.TypeParams().Len() > 0 && call != nil && fr != nil {
+		// generic function: take the instantiated signature at the call site
+		if isig, ok := fr.info.TypeOf(call.Fun).(*types.Signature); ok && isig.TypeParams().Len() == 0 {
+			sig = isig
+		}
+	}
 	if pureExternal(fn) || x.spec > 0 {
 		x.note("abstracted", name+" (result unknown, no effect on tracked state)")
 	} else if x.syntacticallyPure(fn) {
@@ -810,12 +892,17 @@ func (x *Exec) modularCall(s *State, fr *Frame, c *Contract, recv Value, args []
 		}
 	}
 	// requires
+	// Inside a contract expression the precondition is not checked, so it must
+	// not be learned either: there the postconditions hold under it.
+	var specReqs []Term
 	for _, r := range c.Requires {
 		g := x.specCond(s, nf, r.Expr)
 		if x.spec == 0 {
 			x.oblige(s, "requires", fmt.Sprintf("requires@%s#%d", name, r.Dir.Ord), g, call.Pos(), "precondition of "+name+": "+r.Text)
+			s.assume(g)
+		} else {
+			specReqs = append(specReqs, g)
 		}
-		s.assume(g)
 	}
 	pre := s.fork()
 	// frame
@@ -848,7 +935,11 @@ func (x *Exec) modularCall(s *State, fr *Frame, c *Contract, recv Value, args []
 	savedEntry := x.entry
 	x.entry = pre
 	for _, e := range c.Ensures {
-		s.assume(x.ctx.Share(x.specCond(s, nf, e.Expr)))
+		et := x.specCond(s, nf, e.Expr)
+		if len(specReqs) > 0 {
+			et = Implies(And(specReqs...), et)
+		}
+		s.assume(x.ctx.Share(et))
 	}
 	x.entry = savedEntry
 	for obj := range s.vars {
@@ -976,10 +1067,17 @@ func (x *Exec) quantifier(s *State, fr *Frame, kind string, call *ast.CallExpr) 
 	}
 	x.spec++
 	x.noObl++
-	body := x.cond(s.fork(), fr, rs.Results[0])
+	qs := s.fork()
+	qnp, qnf := len(qs.pc), len(qs.facts)
+	body := x.cond(qs, fr, rs.Results[0])
 	x.spec--
 	x.noObl--
 	_ = bounds
+	var bts []Term
+	for _, o := range objs {
+		bts = append(bts, x.bound[o].(*Scalar).T)
+	}
+	x.adopt(s, qs, qnp, qnf, nil, bts)
 	q := "forall"
 	if kind == "pvc_exists" {
 		q = "exists"
@@ -1156,10 +1254,16 @@ func (x *Exec) builtin(s *State, fr *Frame, name string, call *ast.CallExpr) Val
 		p := x.expr(s, fr, call.Args[0]).(*PtrV)
 		kv := x.expr(s, fr, call.Args[1]).(*Scalar)
 		k := Resize(kv.T, 64, isSigned(info.TypeOf(call.Args[1])))
-		if p.Prov != "uint8" {
+		prov := p.Prov
+		if prov == "" {
+			// an unsafe.Pointer of unknown origin: pointer arithmetic is in bytes
+			prov = "uint8"
+			x.note("assumed", "unsafe.Pointer values of unknown origin point into byte memory")
+		}
+		if prov != "uint8" {
 			unsup("unsafe.Add on pointer into %q memory", p.Prov)
 		}
-		return &PtrV{Rgn: p.Rgn, Off: x.ctx.Share(Add64(p.Off, k)), Prov: p.Prov}
+		return &PtrV{Rgn: p.Rgn, Off: x.ctx.Share(Add64(p.Off, k)), Prov: prov}
 	case "unsafe.SliceData":
 		sv, ok := x.expr(s, fr, call.Args[0]).(*SliceV)
 		if !ok {
